@@ -128,7 +128,11 @@ AxImages(ss, ehyps, sg) ==
 CheckTranslate(c) ==
   LET pst == FindP(c.ast, c.target) IN
   IF pst.k = "none" \/ ~VerifyP(c.ast, pst).ok THEN "mm-invalid"
-  ELSE IF c.out # "ok" THEN "translation-failed"
+  ELSE IF c.out # "ok" THEN
+       \* the translator saves every Z-marked step in the checker's memory next to the published axioms; Load addresses
+       \* memory with one byte, so more marks than addressable slots cannot be expressed (known finding, named by reason)
+       (IF Cardinality({k \in 1..Len(pst.letters) : pst.letters[k] = 26}) + Len(AxImages(c.ast, <<>>, SugarOf(c.ast))) > 255
+        THEN "translation-failed/more-saved-steps-than-addressable" ELSE "translation-failed")
   ELSE LET r == Verify(c.files[1], c.files[2], c.files[3]) IN
        IF ~r.ok \/ c.rust # "ok" THEN "not-accepted"
        ELSE LET got == [k \in 1..Len(r.st.journal.axioms) |-> Plain(r.st.journal.axioms[k])] \o
